@@ -335,7 +335,15 @@ func (a *API) current(obj client.Object) client.Object {
 
 // ---- reads ----
 
+// clusterScoped kinds: a real API server ignores a namespace given for them (the URL has none); the fake client would
+// answer NotFound (Karpenter e.g. looks PersistentVolumes up with the pod's namespace set).
+var clusterScoped = map[string]bool{"PersistentVolume": true, "Node": true, "NodeClaim": true, "NodePool": true, "StorageClass": true, "CSINode": true,
+	"Namespace": true, "VolumeAttachment": true, "PriorityClass": true, "TestNodeClass": true, "ResourceSlice": true, "DeviceClass": true, "NodeOverlay": true}
+
 func (a *API) iget(ctx context.Context, c client.WithWatch, key client.ObjectKey, obj client.Object, opts ...client.GetOption) error {
+	if clusterScoped[kindOf(obj)] {
+		key.Namespace = ""
+	}
 	caller, stack, ierr := a.before("get", kindOf(obj))
 	if ierr != nil {
 		a.record(Event{Verb: "get", Kind: kindOf(obj), Key: key.String(), Caller: caller, Stack: stack, Err: ierr.Error(), Injected: true})
